@@ -30,7 +30,7 @@ def gen_script(rng, nops):
     W, H = rng.choice([(8, 6), (13, 9), (20, 12), (31, 17), (40, 23)])
     ps = rng.choice([0, 0, 0, 3, 7])
     mr = rng.choice([0, 0, 0, 1, 2, 50])
-    nc = rng.choice([1, 1, 2, 3])
+    nc = rng.choice([1, 2, 2, 3])
     lines = ["screen %d %d %d %d" % (W, H, ps, mr),
              "cursor %d %d %d %d" % (rng.randint(1, 5), rng.randint(1, 5), rng.randint(0, 2), rng.randint(0, 2))]
     for c in range(nc):
@@ -55,7 +55,7 @@ def gen_script(rng, nops):
                 lines.append("mark %d %d %d %d" % (x1, y1, x2, y2))
         elif r < 0.42:
             # copy region: 1..3 rectangles, destination and source inside the screen
-            if lastd and rng.random() < 0.5:
+            if lastd and rng.random() < 0.65:
                 dx, dy = lastd          # repeated copy with the same offset
             else:
                 dx = rng.choice([0, 1, -1, 2, -3, rng.randint(-(W // 2), W // 2)])
@@ -187,7 +187,7 @@ def run(ctx):
         t = txt.split()
         scripts = [(txt, dict(W=int(t[1]), H=int(t[2]), ps=int(t[3]), mr=int(t[4]), nc=0))]
     else:
-        n = 250 if ctx.tier == "quick" else 5000
+        n = 500 if ctx.tier == "quick" else 5000
         for _ in range(n):
             scripts.append(gen_script(ctx.rng, ctx.rng.choice([8, 15, 30, 60])))
 
